@@ -18,7 +18,9 @@ RULE = ("interval sets: every ordered selection of <=3 (quick) / <=4 (thorough) 
         "closed intervals share a point, else KeyError and only KeyError; for every grid point, midpoint and outside "
         "point lookup == linear scan, `in` agrees (the same map object is probed ascending, descending and in 3 shuffled orders with hits and misses interleaved), len, ascending iteration. distinct_nontrivial = distinct interval "
         "sets with >=2 intervals.")
-ASSUMPTIONS = ["keys and interval ends are ints / binary-exact half steps (no float rounding in the reference)"]
+ASSUMPTIONS = ["keys and interval ends are ints / binary-exact half steps (no float rounding in the reference)",
+               "beyond the property's quantifier (inputs only): a sample of valid maps is additionally shared by 4 threads "
+               "whose first lookups overlap, with forced GIL hand-offs - an immutable map must not depend on who looks first"]
 SHARD_TIMEOUT = {"quick": 600, "thorough": 3600}
 NSHARDS = 16
 
@@ -39,7 +41,9 @@ def valid(intervals):
 def check_case(intervals, probes):
     """intervals: list of (start, end) in insertion order (distinct). Returns None or (mechanism, summary)."""
     from windpyutils.structures.maps import ImmutIntervalMap
-    mapping = {iv: f"v{i}" for i, iv in enumerate(intervals)}
+    # values include None and other falsy objects: membership is about the key, never about the value
+    vals = [None, 0, "", False, (), 0.0]
+    mapping = {iv: (f"v{i}" if (i + len(intervals)) % 3 else vals[i % len(vals)]) for i, iv in enumerate(intervals)}
     got = outcome(lambda: ImmutIntervalMap(mapping))
     ok = valid(intervals)
     if not ok:
@@ -69,6 +73,7 @@ def check_case(intervals, probes):
         for k in sp:
             hits = [mapping[(s, e)] for s, e in intervals if s <= k <= e]
             want = ("ok", hits[0]) if hits else ("exc", "KeyError")
+            hits = [1] if hits else []      # membership: the key lies in an interval, whatever its value is
             use_in = rng.random() < 0.3
             history.append(k)
             if not use_in:
@@ -83,6 +88,46 @@ def check_case(intervals, probes):
                                           f"lookups: {history[-6:-1]})")
     if len(m) != len(intervals) or outcome(lambda: list(m)) != ("ok", want_it):
         return "iteration", "len/iteration changed after lookups"
+    return None
+
+
+def concurrent_first_lookups(intervals, probes, nthreads=4):
+    """A fresh map shared by several threads whose FIRST lookups overlap (the map is immutable, sharing it without a
+    lock is ordinary use). The line monitor forces a GIL hand-off every second statement of repository code."""
+    import threading
+    from windpyutils.structures.maps import ImmutIntervalMap
+    mapping = {iv: f"v{i}" for i, iv in enumerate(intervals)}
+    m = ImmutIntervalMap(mapping)
+    bad = []
+    barrier = threading.Barrier(nthreads)
+
+    def work(tid):
+        barrier.wait()
+        order = list(probes)[tid:] + list(probes)[:tid]
+        for k in order:
+            hits = [mapping[(s, e)] for s, e in intervals if s <= k <= e]
+            want = ("ok", hits[0]) if hits else ("exc", "KeyError")
+            g = outcome(lambda: m[k])
+            if g != want and len(bad) < 3:
+                bad.append(f"thread {tid}: m[{k}] -> {g}, linear scan gives {want}")
+            g = outcome(lambda: k in m)
+            if g != ("ok", bool(hits)) and len(bad) < 3:
+                bad.append(f"thread {tid}: {k} in m -> {g}, expected {bool(hits)}")
+        g = outcome(lambda: list(m))
+        if g != ("ok", [(iv, mapping[iv]) for iv in sorted(intervals)]) and len(bad) < 3:
+            bad.append(f"thread {tid}: iteration -> {g}")
+    instr.start_case(plan={}, trace=False, yield_every=2)
+    try:
+        ts = [threading.Thread(target=work, args=(t,), name=f"vf:t{t}") for t in range(nthreads)]
+        for t in ts:
+            t.start()
+        for t in ts:
+            t.join(60)
+    finally:
+        instr.stop_case()
+        instr.S.yield_every = 0
+    if bad:
+        return "concurrent-readers", f"ImmutIntervalMap({mapping}) shared by {nthreads} threads (first lookups overlapping): " + "; ".join(bad)
     return None
 
 
@@ -141,6 +186,16 @@ def run_shard(spec):
                 bad = check_case(ivs, probes)
             except instr.StepBudgetExceeded:
                 bad = ("operation-does-not-end", f"intervals {ivs}: statement budget exceeded")
+        if not bad and valid(ivs) and len(ivs) >= 2 and (i // spec["nshards"]) % (15 if spec["tier"] == "quick" else 5) == 0:
+            res.count("concurrent_reader_runs")
+            res.evaluations += 8 * len(probes)
+            bad = concurrent_first_lookups(ivs, probes)
+            if bad:
+                per[bad[0]] = per.get(bad[0], 0) + 1
+                if per[bad[0]] <= 10:
+                    res.violation(bad[0], bad[1], {"case": {"intervals": [list(x) for x in ivs], "probes": list(probes),
+                                                            "threads": True}})
+                bad = None
         if bad:
             per[bad[0]] = per.get(bad[0], 0) + 1
             if per[bad[0]] <= 10:
@@ -159,7 +214,12 @@ def extra_coverage(tier, seed):
 def replay(doc):
     instr.install(["windpyutils.structures.maps", "windpyutils.structures.span_set"])
     c = doc["replay"]["case"]
-    bad = check_case([tuple(x) for x in c["intervals"]], c["probes"])
+    if c.get("threads"):
+        bad = None
+        for _ in range(20):
+            bad = bad or concurrent_first_lookups([tuple(x) for x in c["intervals"]], c["probes"])
+    else:
+        bad = check_case([tuple(x) for x in c["intervals"]], c["probes"])
     if bad:
         return True, f"reproduced: {bad[0]}: {bad[1]}"
     return False, "agrees with the linear scan"
